@@ -112,3 +112,9 @@ Theorem C16_source_boxed_generate_frame :
   gen_boxed_generate_frame = ("Box::new_uninit", "Box::from_raw(Box::into_raw(..).cast())") /\
   gen_boxed_generate = gen_generate.
 Proof. exact (conj (proj2 tie_generate_frames) boxed_generate_same_loop). Qed.
+
+(* default_boxed as it stands in src/impl_alloc.rs now is the boxed generate applied to T::default
+   (coq/gen/GenHeap.v; HeapOps.default_boxed = boxed_generate): no allocation path of its own *)
+From GAGen Require Import GenHeap.
+Theorem C16_source_default_boxed : gen_default_boxed_is_generate = true.
+Proof. reflexivity. Qed.
